@@ -222,14 +222,22 @@ Theorem C11_check_sound reds st0 origins power amt st1 recd rtotal :
   s_escrow st1 - s_escrow st0 = amt + 0 /\
   (s_bonded st0 + s_notbonded st0) - (s_bonded st1 + s_notbonded st1) = amt + 0 /\
   (forall d, In d (backers origins) ->
-     holdings st0 d - holdings st1 d = amt_of d recd /\
+     Z.abs (holdings st0 d - holdings st1 d - amt_of d recd) <= inexact_dels st0 d /\
      Z.abs ((holdings st0 d - holdings st1 d) * sum_amt origins - amt_of d origins * amt)
-       <= (count_of d origins + (if d =? last_del origins then Z.of_nat (List.length origins) else 0)) * sum_amt origins).
+       <= (count_of d origins + (if d =? last_del origins then Z.of_nat (List.length origins) else 0) + inexact_dels st0 d) * sum_amt origins).
 Proof.
   exact (fun H => match escrow_case_sound reds st0 origins power amt st1 recd rtotal H with
                   | conj A B => conj A (escrow_spec_sound st0 st1 origins amt recd rtotal 0 0 B) end).
 Qed.
 Print Assumptions C11_check_sound.
+
+(* [inexact_dels] counts the backer's delegations at validators whose exchange rate is not one (slashed before): the
+   whole-token value of such a delegation is a rounded-down fraction before and after the slash; with every validator
+   at rate one the loss of a backer is exactly the recorded amount *)
+Theorem C11_loss_exact_at_rate_one st d :
+  (forall v, In v (s_vals st) -> v_shares v = v_tokens v * P) -> inexact_dels st d = 0.
+Proof. exact (inexact_dels_rate_one st d). Qed.
+Print Assumptions C11_loss_exact_at_rate_one.
 
 (* non-vacuity: a minor dispute paid in two parts slashes 5 % once, jails for 600 s, later payments and a repeat are
    rejected; an underfunded major dispute fails after a day without touching the stake *)
